@@ -320,6 +320,25 @@ func (in *icInst) check(c *mc.Ctx, o icOracle, prop string, path []string) {
 			listedAt[int(vi.Index)] = append(listedAt[int(vi.Index)], chain)
 		}
 	}
+	// every entry of a delivery set must point at a transaction of THIS block that the
+	// model accepted (or recorded as begin-failed): nothing carried over from other blocks
+	if o.verdicts {
+		for chain, sl := range res.Meta.Counter {
+			for _, vi := range sl.Slice {
+				i := int(vi.Index)
+				if i >= len(st.exp) {
+					bad("delivery-entry-without-tx", "delivery set of %s lists position %d but the block has %d txs", chain, i, len(st.exp))
+					continue
+				}
+				if v := st.exp[i].verdict; v == "other" || v == "call" {
+					bad("delivery-entry-for-non-ibtp", "delivery set of %s lists position %d which is not an IBTP (%s)", chain, i, st.descs[i])
+				}
+			}
+		}
+		if len(st.exp) == 0 && len(res.Meta.MultiTxCounter) != 0 {
+			bad("multitx-entry-in-empty-block", "empty block carries multi-tx notifications %v", res.Meta.MultiTxCounter)
+		}
+	}
 	for i, e := range st.exp {
 		rc := res.Receipts[i]
 		switch e.verdict {
